@@ -102,11 +102,21 @@ Section Spec.
                        | _, _ => true
                        end) b.
 
-  (* C04: a conforming keyword call: CPython accepts it, no declared parameter is passed positionally,
-     every declared parameter is annotated and every supplied value conforms *)
+  (* C04: a conforming keyword call: CPython accepts it, no declared parameter is passed positionally (unless the function
+     declares *args), every declared parameter is annotated and every value the caller supplied conforms *)
+  (* positional values the caller wrote for declared parameters that have a name (only functions that declare *args
+     may be called like that: C05) *)
+  Definition positional_values (f : fn) (c : call) (b : binding) : list (option ann * value) :=
+    flat_map (fun ns => match find_param (fst ns) (declared f), snd ns with
+                        | Some p, BOne (SArg i) => map (fun v => (p_ann p, v)) (opt_list (nth_error (c_args c) i))
+                        | _, _ => []
+                        end) b.
+
   Definition c04_args_ok (f : fn) (c : call) : bool :=
     match twin_binding f c with
-    | Ok b => named_by_keyword f b && forallb (fun av => good (fst av) (snd av)) (supplied_of f c b)
+    | Ok b => (named_by_keyword f b || has_varpos (full_params f))
+              && forallb (fun av => good (fst av) (snd av)) (supplied_of f c b)
+              && forallb (fun av => good (fst av) (snd av)) (positional_values f c b)
     | Raise _ => false
     end
     && forallb (fun p => match p_ann p with Some a => supported ctx a | None => false end) (declared f).
